@@ -13,6 +13,33 @@ CHECKS = {
  'C02': ('exploration', 'differential runtime monitor: make_move successors and in-place game boards vs. the rules oracle, plus structural invariants of the live board',
          'Every legal move of every visited position is applied with the engine and the resulting board is read back through its accessors and compared field by field (placement, side, rights, ep) with the successor the reference rules prescribe; whole games are played on ONE engine board mutated in place and compared after each ply; piece/colour set disjointness and king counts are asserted on every board read.',
          'Trusts the rules oracle (perft self-test each run). The ep target is compared exactly whenever an ep capture is legal; otherwise target-set and no-target are both accepted.', '2 C02'),
+ 'C03': ('exploration', 'black-box process monitor: sessions on the real release binary, every go judged against the rules oracle (one bestmove, legal in the position last set)',
+         'Sessions of 5..40 go commands on one process of the hooks-off release binary: self-play continuation, jumps between unrelated games without ucinewgame, mates/stalemates/single-move positions, depth 1..5, movetime 0..50 ms and clocks around the 5 s reserve in shuffled token order, so interrupted and completed searches share one table. Each answer must be exactly one bestmove naming a legal move (0000 exactly when none exists); a dying process is a violation. Sampling of an unbounded history space; the oracle is the independent rules implementation.',
+         'Unbounded liveness is not decided: a go unanswered after 120 s is inconclusive. go infinite / bare go are not sent (no stop command exists).', '2 C03'),
+ 'C04': ('exploration', 'hooked differential monitor of the position command (engine board read back vs. reference game) plus black-box survival/legality check on the release binary',
+         'Tens of thousands of position commands built from reference games (startpos and FEN forms, FENs exported with halfmove clocks up to 149 and fullmove numbers up to 5899, 0..300 moves incl. both castles, en passant and all promotion letters, sequences of commands on one engine) are given to the real handler; the board it ends up with is read back through the hook and compared field by field with the position the rules prescribe. The same commands go to the real binary, which must survive and then answer a legal move of that position.',
+         'Trusts the rules oracle (perft self-test each run). Move counters are only required to be accepted, not compared.', '2 C04'),
+ 'C05': ('exploration', 'differential runtime monitor: real search vs. pruning-free reference minimax (leaves = the engine own quiescence), audit of every cached claim, quiescence window-consistency',
+         'Thousands of positions of all phases: find_best_move on a fresh engine at depth 1..3 and one fixed-depth search (hook) at depth 4..5 on few-men positions are compared with a reference minimax without pruning, ordering or cache; the returned move must attain the value; every entry left in the transposition table is traced back to its position and its (depth, bound, score) claim checked against the reference; quiescence results on random windows must be explained by the full-window result. Depth 4..5 runs in which a deeper cached result was returned are excluded and counted, as the property prescribes.',
+         'Trusts the rules oracle and takes the engine own full-window quiescence as the leaf value (that is the property definition). Positions whose reference exceeds the node budget are skipped and counted. Depth > 5 not covered.', '2 C05'),
+ 'C06': ('fault_enumeration', 'fault enumeration with a deterministic deadline hook: every interruption point (node count / poll index) of real searches, later completed search compared with the reference minimax, history record compared before/after; black-box movetime interruptions on the release binary',
+         'The deadline hook stops a real search after exactly L nodes, for every L in 1..total on small searches and a stratified sample plus all iteration boundaries on larger ones, also at the n-th deadline poll and twice in a row; afterwards the same engine instance runs a completed search whose value must equal the reference minimax value and whose move must attain it, and the engine record of the game history (length and draw answers) must be what it was before the interrupted search. The real wall-clock path is sampled on the release binary with go movetime 0..3 followed by go depth j+1.',
+         'Node/poll deadlines are answered by the same should_stop() as the wall clock. Searches too large for the reference budget are skipped and counted. Depth 4 only in the thorough tier (deeper-entry reuse excluded as in C05).', '2 C06'),
+ 'C07': ('fault_enumeration', 'fault enumeration of deadline expiry points with a hook that records the node count at which the deadline passed; cap turns a runaway search into a caught event; CPU-time measurement of go movetime on the release binary',
+         'For every interruption point of small searches, stratified points up to 300 000 nodes in promotion races whose quiescence explodes and in depth 4..5 middlegames, and real wall-clock budgets of 0..20 ms, the hook records the node count at which the deadline passed; the number of nodes expanded afterwards must stay within 5000 (observed: at most 1). A cap turns a search that ignores its deadline into a caught event rather than a hang. The release binary is timed by CPU consumed between go movetime T and bestmove (bound T + 500 ms).',
+         '5000 nodes / 500 ms is the monitor reading of "small bounded amount of further work", generous so that poll-every-N designs are not accused. CPU time <= wall time for this single-threaded process.', '2 C07'),
+ 'C08': ('exploration', 'runtime monitor with a rules-only oracle: set of mating moves / set of moves allowing a mate in one vs. the answer of real searches',
+         'All positions met along thousands of random games, synthetic positions and king-hunt studies that contain a mate in one (depth 1..4) or a mix of moves that do and do not allow one (depth 2..3) are searched on a fresh engine; the answer must be a mating move, respectively must not be a move that allows mate in one. Sets are computed with the reference rules only.',
+         'Trusts the rules oracle. Depth 4 only on positions with at most 10 men.', '2 C08'),
+ 'C09': ('exploration', 'hooked monitor of the repetition answer for every successor after real position commands vs. occurrence counts in the reference game; black-box depth-1 score check on the release binary',
+         'Thousands of game histories that shuffle pieces out and back (occurrence counts 0..4, incl. the initial position) are given with real position commands, alone or after another position command on the same engine (extension, prefix, unrelated game); for every successor of the current position the engine repetition answer must be draw when it already occurred twice and not-draw when it occurred fewer than twice. End-to-end the release binary must print, for go depth 1 after ucinewgame, the score max(0 for third occurrences, -quiescence otherwise).',
+         'Positions equal except for an ep target that cannot be captured are accepted either way. The end-to-end expectation uses the engine own quiescence (hook build of the same sources).', '2 C09'),
+ 'C13': ('exploration', 'black-box self-comparison across processes (fresh random keys each) and after ucinewgame; in-process comparison of (score, move, nodes) across freshly drawn key sets',
+         'Depth-limited scripts are run in several separate processes and must give byte-identical transcripts (time/nps removed); dozens of fresh searchers, each with its own random keys, must agree on score, move and node count per position and depth; the transcript of a script after prefix + ucinewgame (prefix with searches, time-limited searches, long histories; script may start with a bare go) must equal its transcript in a fresh process.',
+         'Key sets not drawn are not covered; time-limited searches are only used as prefixes, never compared.', '2 C13'),
+ 'C16': ('exploration', 'black-box protocol-model monitor on the release binary with strace counting reads of an ended input (event count, not timeout) and exit status',
+         'Thousands of random input streams (uci/isready/ucinewgame/position/go depth 1 mixed with blank, whitespace, 20 kB, unicode, invalid UTF-8 and near-miss lines, CRLF, surrounding blanks; ending with quit, at end of input, or mid-line) are fed to fresh processes; the transcript must match the protocol model exactly, the exit status must be 0, and strace must show at most a few zero-length reads of fd 0 after the end of input (10 with the process still running is the violation witness).',
+         'Junk never contains a recognised command word as a token. Fallback when strace cannot attach: alive 25 s after end of input having burnt > 2 s CPU.', '2 C16'),
  'C17': ('exploration', 'differential runtime monitor of the quiescence move generator plus an event log (hook) of every quiescence node visited by real searches, both checked against the rules oracle',
          'generate_quiescence_moves is compared with {legal moves that capture, promote or check} on millions of positions, and a hook logs (position, in-check, moves examined) at every quiescence node of real depth 1-2 searches; each logged node is checked against the same set, or against all legal moves when in check.',
          'Trusts the rules oracle and the q-log hook (it only copies the move vector the search is about to iterate).', '2 C17'),
